@@ -39,6 +39,41 @@ pub struct Profile {
     strategies: BTreeMap<Bucket, Strategy>,
 }
 
+#[cfg(robopoker_verif)]
+impl Profile {
+    /// verification hooks: raw rows (past, present, future, edge, regret, policy) in table order
+    pub fn verif_rows(&self) -> Vec<(u64, u64, u64, u64, f32, f32)> {
+        self.strategies
+            .iter()
+            .flat_map(|(b, s)| {
+                s.iter().map(move |(e, m)| {
+                    (u64::from(b.0), u64::from(b.1), u64::from(b.2), u64::from(e.clone()), m.regret(), m.policy())
+                })
+            })
+            .collect()
+    }
+    pub fn verif_from_rows(rows: &[(u64, u64, u64, u64, f32, f32)]) -> Self {
+        use crate::clustering::abstraction::Abstraction;
+        use crate::mccfr::path::Path;
+        let mut strategies = BTreeMap::new();
+        for (past, present, future, edge, regret, policy) in rows.iter().copied() {
+            let bucket = Bucket::from((Path::from(past), Abstraction::from(present), Path::from(future)));
+            strategies
+                .entry(bucket)
+                .or_insert_with(Strategy::default)
+                .entry(Edge::from(edge))
+                .or_insert_with(|| Memory::from((regret, policy)));
+        }
+        Self { strategies, iterations: 0 }
+    }
+    pub fn verif_memory(&self, bucket: &Bucket, edge: &Edge) -> Option<(f32, f32)> {
+        self.strategies.get(bucket).and_then(|s| s.get(edge)).map(|m| (m.regret(), m.policy()))
+    }
+    pub fn verif_set_epochs(&mut self, n: usize) {
+        self.iterations = n;
+    }
+}
+
 impl Profile {
     /// count of Buckets visited so far
     pub fn size(&self) -> usize {
